@@ -340,6 +340,10 @@ class ODLDecoder(PVLDecoder):
             if match is not None:
                 gd = match.groupdict(default=0)
                 dt = super().decode_datetime(gd["dt"])
+                if not hasattr(dt, "utcoffset"):
+                    # Only times and datetimes can have a time zone
+                    # offset, not dates (nor leap second strings).
+                    raise ValueError
                 offset = timedelta(
                     hours=int(gd["hour"]), minutes=int(gd["minute"])
                 )
